@@ -347,7 +347,7 @@ def exhaustive_cases(quick):
         for nlev in (2, 3):
             for use_else in (False, True):
                 fams.append((nd, nl, wtype, width, start, nlev, use_else))
-    cap = 40 if quick else 1200
+    cap = 40 if quick else 300
     out = []
     for (nd, nl, wtype, width, start, nlev, use_else) in fams:
         factors = [simple(i, nl) for i in range(nd)]
@@ -811,14 +811,16 @@ def run(ctx, res):
                 "flat record, %d random-column observations of select_level_for_sample/test_trial (+ add_implied_levels when "
                 "implied), %d sequences of IterateSATGen and RandomGen judged against the program's tables; non-trivial = "
                 "constructors accepted the factor; distinct by program text"
-                % (nrand, "first 40" if quick else "up to 1200", nobs, nseq))
+                % (nrand, "first 40" if quick else "up to 300, strided through the family", nobs, nseq))
     cases = []
     for tag, p in gen_design.corpus():
         for f in p["factors"]:
             if f["kind"] == "derived" and p["blocks"][-1]["kind"] == "CrossBlock":
                 cases.append((p, f["id"], {"corpus": tag}))
+    nfam = 0
     for factors, dut, tag in exhaustive_cases(quick):
-        for placement in (("crossed", "implied") if quick else ("crossed", "implied", "constrained")):
+        nfam += 1
+        for placement in (("crossed", "implied") if (quick or nfam % 3) else ("crossed", "implied", "constrained")):
             p, fid, t2 = assemble(ctx.rng, copy.deepcopy(factors), copy.deepcopy(dut), placement, tag)
             cases.append((p, fid, t2))
     k = 0
@@ -914,14 +916,14 @@ def run(ctx, res):
         seen.add(sig)
         res.violations.append(Violation(sig, what + "  program=" + json.dumps(p, sort_keys=True)[:1200],
                                         {"program": p, "fid": fid, "detail": detail, "sig": sig}))
-    if corr_bad and not found:
+    if corr_bad:
+        # run.py reports a broken tie only when no unlisted concrete failing input explains it
         layer, p, d = corr_bad[0]
         res.violations.append(Violation(
             "corr:" + layer, "model (Design/Derive.v) and real code disagree on %d observations, first at layer %s: %s"
             % (len(corr_bad), layer, json.dumps(d, default=str)[:400]),
             {"layer": layer, "program": p, "detail": d, "theorems": ["C15_*"]}, failing_input=False))
-    elif corr_bad:
-        res.notes.append("model/code disagreements: %d (first layer %s: %s)" % (len(corr_bad), corr_bad[0][0], json.dumps(corr_bad[0][2], default=str)[:300]))
+        res.notes.append("model/code disagreements: %d (first layer %s)" % (len(corr_bad), corr_bad[0][0]))
     res.extra["disagreements"] = [(l, json.dumps(d, default=str)[:300], json.dumps(p, sort_keys=True)) for l, p, d in corr_bad[:10]]
     res.notes.append("layers: window, domain, accepts (ElseLevel complement), outcome-overlap (which levels/assignment), "
                      "outcome-errors (exact strings), outcome-fails, synth-empty, derivs + flat-errors (flat record), "
